@@ -19,6 +19,8 @@ class Bitwise(Contract):
     side) return an object of x's format whose bit pattern is the bitwise NOT/AND/OR/XOR of the n_word-bit
     two's-complement patterns; different word lengths are rejected with ValueError."""
     name = 'objects:Fxp.__invert__/__and__/__or__/__xor__'
+    primary = ['C13']
+    secondary_stride = 4
     layer = 5
     uses = LOWER
     allowed_exceptions = ('ValueError',)
@@ -142,6 +144,8 @@ class Shifts(Contract):
     mode: format unchanged, x>>n is floor(code / 2^n), x<<n is code*2^n when representable and otherwise a
     value inside the format's range; n = 0 is the identity; the operand is never modified."""
     name = 'objects:Fxp.__lshift__/__rshift__'
+    primary = ['C14']
+    secondary_stride = 4
     layer = 5
     uses = LOWER
     props = {'*': ['C14'], 'format_valid': ['C14', 'C02'], 'in_range': ['C14', 'C02'], 'operand_unchanged': ['C14', 'C20']}
